@@ -117,6 +117,9 @@ pub enum Ty {
     Compact(Box<Ty>),
     /// `BitVec<store, Lsb0|Msb0>`; `true` = Msb0
     BitVec(Prim, bool),
+    /// `BitVec<P, Lsb0|Msb0>` whose store is the type parameter with this index (instantiated
+    /// with u8/u16/u32/u64 only)
+    BitVecOf(usize, bool),
     /// type alias `name = inner` (printed by name, transparent otherwise)
     Alias(String, Box<Ty>),
     /// `[T]` — only as an interning key of the scale-info model (identity of Vec / VecDeque)
@@ -213,6 +216,11 @@ impl Ty {
         let sb = |t: &Ty| std::boxed::Box::new(t.subst(args, prog));
         match self {
             Prim(_) | Str | Marker(_) | NonZero(_) | Duration | BitVec(..) | CowStr | StrSlice => self.clone(),
+            BitVecOf(i, msb) => match &args[*i] {
+                Prim(p) => BitVec(*p, *msb),
+                Param(j) => BitVecOf(*j, *msb),
+                _ => BitVec(crate::prog::Prim::U8, *msb),
+            },
             Slice(t) => Slice(sb(t)),
             Param(i) => args[*i].clone(),
             Assoc(i, k) => match args[*i].strip_alias() {
@@ -250,7 +258,7 @@ impl Ty {
     pub fn mentions_param(&self) -> bool {
         let mut found = false;
         self.walk(&mut |t| {
-            if matches!(t, Ty::Param(_) | Ty::Assoc(..)) {
+            if matches!(t, Ty::Param(_) | Ty::Assoc(..) | Ty::BitVecOf(..)) {
                 found = true
             }
         });
@@ -261,7 +269,7 @@ impl Ty {
         use Ty::*;
         f(self);
         match self {
-            Prim(_) | Str | Marker(_) | NonZero(_) | Duration | BitVec(..) | CowStr | Param(_)
+            Prim(_) | Str | Marker(_) | NonZero(_) | Duration | BitVec(..) | BitVecOf(..) | CowStr | Param(_)
             | Assoc(..) | StrSlice => {}
             Def(_, a) | Tuple(a) => a.iter().for_each(|t| t.walk(f)),
             Vec(t) | VecDeque(t) | Array(t, _) | Option(t) | Box(t) | Cow(t) | BTreeSet(t)
@@ -358,6 +366,7 @@ impl Program {
             Phantom(t) => format!("PhantomData<{}>", r(t)),
             Compact(t) => format!("Compact<{}>", r(t)),
             BitVec(s, msb) => format!("BitVec<{}, {}>", s.name(), if *msb { "Msb0" } else { "Lsb0" }),
+            BitVecOf(i, msb) => format!("BitVec<{}, {}>", r(&Param(*i)), if *msb { "Msb0" } else { "Lsb0" }),
             Alias(n, _) => format!("{}::{n}", self.root_path()),
             Slice(t) => format!("[{}]", r(t)),
             StrSlice => "str".into(),
@@ -590,6 +599,8 @@ pub struct GenCfg {
     pub cow_def: bool,
     /// doc blocks that start with / consist of blank lines, padded lines
     pub odd_docs: bool,
+    /// bit sequences whose store is a type parameter
+    pub bitvec_param: bool,
     pub docs: bool,
 }
 
@@ -617,6 +628,7 @@ impl Default for GenCfg {
             hostile_names: false,
             cow_def: true,
             odd_docs: true,
+            bitvec_param: true,
             docs: true,
         }
     }
@@ -750,6 +762,10 @@ impl<'r, R: Rng> ProgGen<'r, R> {
                     Ty::Compact(Ty::Prim(*Prim::UINTS.choose(self.rng).unwrap()).b())
                 }
             }
+            16 if self.cfg.allow_bitvec && self.cfg.bitvec_param && cx.params.iter().any(|p| p.uint) && self.chance(0.4) => {
+                let uints: std::vec::Vec<usize> = (0..cx.params.len()).filter(|&i| cx.params[i].uint).collect();
+                Ty::BitVecOf(*uints.choose(self.rng).unwrap(), self.chance(0.5))
+            }
             16 if self.cfg.allow_bitvec => Ty::BitVec(
                 *[Prim::U8, Prim::U16, Prim::U32, Prim::U64].choose(self.rng).unwrap(),
                 self.chance(0.5),
@@ -808,7 +824,7 @@ impl<'r, R: Rng> ProgGen<'r, R> {
                 if !own.is_empty() && self.chance(0.5) {
                     args.push(Ty::Param(*own.choose(self.rng).unwrap()));
                 } else {
-                    args.push(Ty::Prim(*Prim::UINTS.choose(self.rng).unwrap()));
+                    args.push(Ty::Prim(*Prim::UINTS[..4].choose(self.rng).unwrap()));
                 }
             } else {
                 args.push(self.gen_ty(cx, depth.max(self.cfg.max_depth.saturating_sub(1)), heap));
@@ -1043,7 +1059,7 @@ pub fn make_compilable(def: &mut Def, me: usize) {
     fn mark_in(t: &Ty, me: usize, used: &mut Vec<bool>) {
         use Ty::*;
         match t {
-            Param(i) | Assoc(i, _) => used[*i] = true,
+            Param(i) | Assoc(i, _) | BitVecOf(i, _) => used[*i] = true,
             Def(d, _) if *d == me => {}
             Def(_, a) | Tuple(a) => a.iter().for_each(|x| mark_in(x, me, used)),
             Vec(x) | VecDeque(x) | Array(x, _) | Option(x) | Box(x) | Cow(x) | BTreeSet(x) | BinaryHeap(x) | Range(x) | RangeInclusive(x) | Phantom(x) | Compact(x) | Alias(_, x) | Slice(x) => mark_in(x, me, used),
